@@ -1,4 +1,7 @@
 mod ctl;
+mod elines;
+mod eproj;
+mod model;
 mod sched;
 mod util;
 
@@ -52,6 +55,7 @@ fn dispatch(prop: &str, tier: &str) -> i32 {
         usage();
     }
     match prop {
+        "C01" => elines::run_c01(tier),
         "C02" | "C03" | "C05" => sched::run_property(prop, tier),
         _ => {
             eprintln!("unknown property {prop}");
@@ -63,6 +67,7 @@ fn dispatch(prop: &str, tier: &str) -> i32 {
 fn dispatch_replay(prop: &str, v: &serde_json::Value) -> bool {
     match v["case"]["engine"].as_str().or(v["engine"].as_str()).unwrap_or("") {
         "S" => sched::replay(prop, v),
+        "E-lines" => elines::replay(v),
         e => {
             eprintln!("unknown engine {e:?} in replay file");
             std::process::exit(2);
